@@ -140,6 +140,9 @@ theorem removePairedClient_last_admin (s : PState) (u : Uuid) (hok : (removePair
       · next h3 => left; simpa [List.any_eq_true] using h3
       · right; exact ⟨rfl, rfl⟩
 
+theorem okResp_not_error (pc : Bool) : (okResp pc).isError = false := by
+  cases pc <;> decide
+
 /-! ### one request, by cases -/
 
 /-- the add path either changes nothing and answers 500, or registers one controller -/
@@ -181,5 +184,46 @@ theorem handleRemove_cases (parse : Bytes → Option Uuid) (s : PState) (objs : 
       · right; left
         simp only [hu, Bool.false_eq_true, if_false]
         exact ⟨_, rfl⟩
+
+/-- what one operation can do to aligned maps: nothing; register one controller (success
+    answer, save scheduled); or remove one paired controller (success answer, save scheduled) -/
+theorem step_cases (parse : Bytes → Option Uuid) (s : PState) (op : Op) (h : Aligned s) :
+    (∃ resp, step parse s op = (s, resp, false)) ∨
+    (∃ idb key perms s', addPairedClient parse s idb key perms = some s' ∧
+      step parse s op = (s', okResp, true)) ∨
+    (∃ u pc, ahas s.paired u = true ∧ (removePairedClient s u).2 = true ∧
+      step parse s op = ((removePairedClient s u).1, okResp pc, true)) := by
+  cases op with
+  | setup idb key =>
+    simp only [step]
+    cases e : addPairedClient parse s idb key [1] with
+    | none => left; exact ⟨_, rfl⟩
+    | some s' => right; left; exact ⟨idb, key, [1], s', e, rfl⟩
+  | req r =>
+    show (∃ resp, handlePairings parse s r = _) ∨ (∃ idb key perms s', _ ∧ handlePairings parse s r = _) ∨
+      (∃ u pc, _ ∧ _ ∧ handlePairings parse s r = _)
+    unfold handlePairings
+    split
+    · left; exact ⟨_, rfl⟩
+    · split
+      · left; exact ⟨_, rfl⟩
+      · split
+        · left; exact ⟨_, rfl⟩
+        · next objs _ =>
+          split
+          · left; exact ⟨_, rfl⟩
+          · left; exact ⟨_, rfl⟩
+          · split
+            · rcases handleAdd_cases parse s objs with e | ⟨idb, key, perms, s', e1, e2⟩
+              · left; exact ⟨_, e⟩
+              · right; left; exact ⟨idb, key, perms, s', e1, e2⟩
+            · split
+              · rcases handleRemove_cases parse s objs h with e | ⟨pc, e⟩ | ⟨u, pc, e1, e2, e3⟩
+                · left; exact ⟨_, e⟩
+                · left; exact ⟨_, e⟩
+                · right; right; exact ⟨u, pc, e1, e2, e3⟩
+              · split
+                · left; exact ⟨_, rfl⟩
+                · left; exact ⟨_, rfl⟩
 
 end Hap.PairState
